@@ -325,6 +325,7 @@ def plan(tier):
     specs = [{'kind': 'matrix', 'part': i, 'parts': parts} for i in range(parts)]
     k = 6 if tier == 'quick' else 16
     specs += [{'kind': 'trees', 'n': 6000 if tier == 'quick' else 60000, 'k': i} for i in range(k)]
+    specs += [{'kind': 'dtarith', 'n': 3000 if tier == 'quick' else 40000, 'k': i} for i in range(1 if tier == 'quick' else 4)]
     specs += [{'kind': 'aliases', 'n': 4000 if tier == 'quick' else 30000, 'k': i} for i in range(2 if tier == 'quick' else 8)]
     return specs
 
@@ -377,6 +378,34 @@ def run_shard(ctx, spec):
                       'has-if()' if re.search(r'\bif\s*\(', text) else 'no-if()'],
                      {'text': text, 'globals': {k: v for k, v in globals_.items()}, 'locals': locals_})
         run_hypothesis(ctx, prop, [st.integers(0, 2 ** 32 - 1), st.integers(1, 6)], spec['n'], salt=spec['k'], minimise=minimise_tree)
+        return
+    if spec['kind'] == 'dtarith':
+        # datetime arithmetic over the whole datetime range: the offset is the distance to a second in-range datetime (plus a small
+        # delta), so the results stay in range right up to both ends of the calendar
+        edge = st.sampled_from([datetime.datetime(1, 1, 1), datetime.datetime(9999, 12, 31, 23, 59, 59, 999000), datetime.datetime(1, 1, 2), datetime.datetime(9999, 12, 31),
+                                datetime.datetime(4, 12, 31), datetime.datetime(9995, 1, 1), datetime.datetime(1970, 1, 1), datetime.datetime(2020, 1, 1)])
+        anydt = st.datetimes(min_value=datetime.datetime(1, 1, 1), max_value=datetime.datetime(9999, 12, 31, 23, 59, 59)).map(
+            lambda d: d.replace(microsecond=(d.microsecond // 1000) * 1000))
+        dts = st.one_of(edge, anydt, gv.naive_datetimes)
+        delta = st.sampled_from([0, 0, 1, -1, 1000, -1000, 0.5, 86400000, -86400000, 31536000000, -31536000000])
+
+        def dprop(d1, d2, dl, form, as_int):
+            ms = (d2 - d1) / datetime.timedelta(milliseconds=1) + dl
+            ms = int(ms) if as_int and float(ms).is_integer() else float(ms)
+            V = lambda n: ('var', n)
+            tree, text = [(('bin', '+', V('d'), V('n')), 'd + n'), (('bin', '+', V('n'), V('d')), 'n + d'), (('bin', '-', V('e'), V('d')), 'e - d'),
+                          (('bin', '+', V('d'), ('group', ('bin', '-', V('e'), V('d')))), 'd + (e - d)'),
+                          (('bin', '==', ('bin', '+', V('d'), ('group', ('bin', '-', V('e'), V('d')))), V('e')), 'd + (e - d) == e'),
+                          (('bin', '<', V('d'), V('e')), 'd < e')][form]
+            g = {'d': d1, 'e': d2, 'n': ms}
+            expected, _ = check_expression(tree, text, g, None)
+            if expected is None:
+                ctx.discard('indeterminate-arithmetic')
+                return
+            far = abs(ms) > 3.0e14
+            ctx.case(digest(enc([text, g])), d1 != d2, ['dtarith:' + text, 'offset>3e14ms' if far else 'offset<=3e14ms',
+                                                        'result:' + (ref_type(expected[1]) if expected[0] == 'ok' else 'error')], {'text': text, 'globals': g})
+        run_hypothesis(ctx, dprop, [dts, dts, delta, st.integers(0, 5), st.booleans()], spec['n'], salt=40 + spec['k'])
         return
     # aliases
     from pbt.checks import c12
